@@ -140,9 +140,11 @@ class Prop:
                 else:
                     ops.append({"id": -1, "kind": "cancel", "target": rng.randrange(0, nid[0] + 2)})
             scripts.append(ops)
-        return {"mode": mode, "scripts": scripts, "sched": th.gen_sched(rng, spurious_p=0.3, drift_p=0.4)}
+        return {"mode": mode, "scripts": scripts, "sched": th.gen_sched(rng, spurious_p=0.3, drift_p=0.4, sweep_p=0.02)}
 
     def execute(self, sc):
+        if sc["sched"].get("sweep") and "cps" not in sc:
+            return th.sweep(self.execute, sc)
         out = Outcome()
         holder = {}
 
